@@ -1989,7 +1989,7 @@ impl DhtNetworkManager {
                     "[STEP 3a] {}: Processing {:?} request from {}",
                     self.config.local_peer_id, message.payload, sender
                 );
-                let result = self.handle_dht_request(&message).await?;
+                let result = self.handle_dht_request(&message, sender).await?;
                 info!(
                     "[STEP 4] {}: Sending response {:?} back to {} (msg_id: {})",
                     self.config.local_peer_id,
@@ -2022,7 +2022,14 @@ impl DhtNetworkManager {
     }
 
     /// Handle DHT request message
-    async fn handle_dht_request(&self, message: &DhtNetworkMessage) -> Result<DhtNetworkResult> {
+    ///
+    /// `sender` is the authenticated transport identity of the connection the
+    /// request arrived on; `message.source` is only what the payload claims.
+    async fn handle_dht_request(
+        &self,
+        message: &DhtNetworkMessage,
+        sender: &PeerId,
+    ) -> Result<DhtNetworkResult> {
         match &message.payload {
             DhtNetworkOperation::Put { key, value } => {
                 trace!(
@@ -2042,12 +2049,12 @@ impl DhtNetworkManager {
             }
             DhtNetworkOperation::Get { key } => {
                 info!("Handling GET request for key: {}", hex::encode(key));
-                self.handle_lookup_request(key, &message.source, LookupRequestKind::Get)
+                self.handle_lookup_request(key, sender, LookupRequestKind::Get)
                     .await
             }
             DhtNetworkOperation::FindNode { key } => {
                 info!("Handling FIND_NODE request for key: {}", hex::encode(key));
-                self.handle_lookup_request(key, &message.source, LookupRequestKind::FindNode)
+                self.handle_lookup_request(key, sender, LookupRequestKind::FindNode)
                     .await
             }
             DhtNetworkOperation::FindValue { key } => {
@@ -2056,7 +2063,7 @@ impl DhtNetworkManager {
                     self.config.local_peer_id,
                     hex::encode(key)
                 );
-                self.handle_lookup_request(key, &message.source, LookupRequestKind::FindValue)
+                self.handle_lookup_request(key, sender, LookupRequestKind::FindValue)
                     .await
             }
             DhtNetworkOperation::Ping => {
